@@ -296,3 +296,19 @@ fn trunc(s: &str) -> String {
     s.to_string()
   }
 }
+
+// ---------- allocation probes (set by the harness binary; used by the C06 driver) ----------
+static mut ALLOC_PROBE: Option<fn() -> u64> = None;
+static mut LIVE_PROBE: Option<fn() -> i64> = None;
+pub fn set_alloc_probe(f: fn() -> u64) {
+  unsafe { ALLOC_PROBE = Some(f) }
+}
+pub fn set_live_probe(f: fn() -> i64) {
+  unsafe { LIVE_PROBE = Some(f) }
+}
+pub fn allocated() -> u64 {
+  unsafe { ALLOC_PROBE.map(|f| f()).unwrap_or(0) }
+}
+pub fn live() -> i64 {
+  unsafe { LIVE_PROBE.map(|f| f()).unwrap_or(0) }
+}
